@@ -225,7 +225,7 @@ def run(ctx, rep):
 
 def r02_4(ctx, rep):
     # ---------------- R02.4 -------------------------------------------------------------
-    creators = {b["key"] for b, bi, t in ctx.all_calls(r"fs::OpenOptions::create_new$")}
+    creators = chunk_creators(ctx)
     for key in [k for k in ctx.write_entries() if not k.endswith("::flush")]:
         op = short_key(key).split("::")[-1]
         gw = ctx.graph(key)
